@@ -26,6 +26,9 @@ from ..findings import is_open
 from raysect.core.math.function.float.function1d.autowrap import PythonFunction1D
 from raysect.core.math.function.float.function2d.autowrap import PythonFunction2D
 from raysect.core.math.function.float.function3d.autowrap import PythonFunction3D
+from raysect.core.math.function.float import (Arg1D, Arg2D, Arg3D, Sin1D, Sin2D, Sin3D, Constant1D, Constant2D, Constant3D,
+                                              Interpolator1DArray, Interpolator2DArray, Interpolator3DArray)
+import cherab.core.math as CM
 from cherab.core.math.caching import Caching1D, Caching2D, Caching3D
 
 ID = "C14"
@@ -72,6 +75,13 @@ RULE = ("dimension 1/2/3 (sub-checks d1/d2/d3). Per axis one of: float (width 0.
         "construction, defaults omitted, wrapped function as raysect PythonFunctionND object, point coordinates as int / numpy "
         "scalars, evaluation through the C-level evaluate() (raysect MultiplyScalar wrapper cache*1.0), the bounds container "
         "overwritten by the caller after construction. "
+        "Wrapped-function flavours (one per case, besides the recording callable): another, 1.5-4x coarser Caching object of the same "
+        "dimension over an area that contains the outer cache's sampled hull (with / without its own no_boundary_error), a raysect "
+        "arithmetic expression of Arg / Sin / constants equal to the family function, a raysect Constant, raysect InterpolatorNDArray "
+        "and cherab InterpolateNDCubic (cubic, 4..7 knots per axis, constant extrapolation), cherab ClampOutput / ClampInput with "
+        "limits outside the range, cherab Swizzle2D/3D of a permuted callable. The oracle is the object that was handed in, evaluated "
+        "directly: nodes (corners of the visited cells) and outside pass-through for every flavour, multilinear exactness / h^2 bound "
+        "for the flavours that are the family function itself, order independence with a second identical construction. "
         "Interference / repeat: every case carries a second configuration B of the same class (own function, area, resolution, options; "
         "in 1/3 of the cases the same area and resolution as A with another function; in 1/2 the same options as A; both are built "
         "with options equal to their defaults omitted). B is judged on its own against f_B; then a fresh A is evaluated point by "
@@ -93,6 +103,11 @@ ASSUMPTIONS = [
     "canonical construction (tuples of Python floats, keywords) must be reproduced bit for bit; space_area and the 2-D/3-D resolution "
     "are typed `tuple` in the constructors (lists are rejected with TypeError - not generated)",
     "x * 1.0 is exact, so (cache * 1.0)(p) exposes the bits returned by the C-level evaluate()",
+    "wrapped-function flavours: an inner cache / cubic interpolator is a C1 piecewise cubic, not twice differentiable, so only node "
+    "exactness, pass-through and history independence are demanded of it (no h^2 bound); its kappa uses degree 3 and the derivative "
+    "scale K_a * (knot spacing of the wrapped object / outer node spacing)^(1/3) (second-derivative jumps at the inner knots raise "
+    "the outer cubic's third-order coefficient by that ratio); |wrapped| <= 2.5 max|f| (Lebesgue constant^3); piecewise-linear "
+    "wrapped objects (linear interpolators, active clamps) are not generated - no stated fp-tolerance model for kinked data",
 ]
 TOLERANCES = {
     "history": "bit identity (float.hex) of returned values / identical ValueError outcome: same arithmetic, see module docstring",
@@ -129,10 +144,13 @@ _COMMON = ("fam:mlin", "fam:quad", "fam:sin", "fam:const", "fb:none", "fb:true",
            "form:res-int", "form:res-numpy", "form:fb-list", "form:fb-ndarray", "form:fn-object", "form:pt-int", "form:pt-numpy",
            "form:via-evaluate", "caller:fb-mutated-after",
            "interference:A-first", "interference:B-first", "interference:both-defaults", "second:geom-own", "second:geom-same",
-           "second:other-family", "repeat:in-a-row", "repeat:after-other", "repeat:sibling")
+           "second:other-family", "repeat:in-a-row", "repeat:after-other", "repeat:sibling",
+           # flavours of the wrapped function (besides the recording Python callable and form:fn-object)
+           "wrapped:inner-cache", "wrapped-node:inner-cache", "wrapped:expr", "wrapped:constant", "wrapped:interp-raysect",
+           "wrapped:interp-cherab", "wrapped:cherab-clamp")
 REQUIRED_LABELS = [l for l in
                    ["%s:%s" % (d, x) for d in ("d1", "d2", "d3") for x in _COMMON]
-                   + ["d1:cells:large", "d2:cells:large", "d2:aniso", "d3:aniso", "d2:mlin:cross-inside", "d3:mlin:cross-inside"]
+                   + ["d1:wrapped:cherab-clampinput", "d2:wrapped:cherab-swizzle", "d3:wrapped:cherab-swizzle", "d1:cells:large", "d2:cells:large", "d2:aniso", "d3:aniso", "d2:mlin:cross-inside", "d3:mlin:cross-inside"]
                    if not _ONLY or l.split(":")[0] in _ONLY]
 
 CLASSES = {1: Caching1D, 2: Caching2D, 3: Caching3D}
@@ -273,6 +291,19 @@ def _coord_out():
         st.tuples(st.just("near"), st.sampled_from([-1, 1])).map(list))
 
 
+def _flavour():
+    """How the function handed to the cache is realised (besides the recording Python callable of the main oracles)."""
+    return st.one_of(
+        st.fixed_dictionaries({"kind": st.just("cache"), "coarse": st.floats(1.5, 4.0), "nbe": st.booleans(),
+                               "margin": st.lists(st.floats(0.0, 1.0), min_size=6, max_size=6)}),
+        st.fixed_dictionaries({"kind": st.just("cache"), "coarse": st.floats(1.5, 4.0), "nbe": st.booleans(),
+                               "margin": st.lists(st.floats(0.0, 1.0), min_size=6, max_size=6)}),
+        st.fixed_dictionaries({"kind": st.just("expr")}),
+        st.fixed_dictionaries({"kind": st.just("constant")}),
+        st.fixed_dictionaries({"kind": st.sampled_from(["interp-raysect", "interp-cherab"]), "n": st.integers(4, 7)}),
+        st.fixed_dictionaries({"kind": st.sampled_from(["clamp", "swizzle"])}))
+
+
 def _forms():
     """Input forms of the second, 'non-canonical' construction (values are the same doubles)."""
     return st.fixed_dictionaries({
@@ -290,6 +321,9 @@ def _forms():
 def _case(draw, dim, second=True):
     axes = [draw(_axis(dim)) for _ in range(dim)]
     kind = draw(st.sampled_from(["mlin", "mlin", "quad", "sin", "sin", "const"]))
+    flavour = draw(_flavour())
+    if flavour["kind"] == "constant":            # a raysect Constant object is handed in: the function is constant
+        kind = "const"
     amp = 10.0 ** draw(st.integers(-3, 3))
     fb = draw(st.sampled_from(["none", "none", "true", "loose", "loose", "degenerate"]))
     if kind == "const":                          # equal values at all nodes
@@ -374,7 +408,7 @@ def _case(draw, dim, second=True):
     alts = list(draw(st.permutations([m for m in ("none", "true", "loose", "degenerate") if m != fb])))[:2]
     case = {"dim": dim, "area": area, "res": res, "nbe": draw(st.booleans()), "fb": fb,
             "fb_x": [draw(st.sampled_from([0.0, 1.0, 10.0, 100.0])) * draw(st.floats(0.0, 1.0)) for _ in range(2)],
-            "alts": alts, "forms": draw(_forms()),
+            "alts": alts, "forms": draw(_forms()), "flavour": flavour,
             "f": fn, "pts": pts, "perm": perm, "shrunk": shrunk}
     if not second:
         return case
@@ -452,6 +486,89 @@ def _make(case, fn, fbmode=None, omit_defaults=False):
     cache = CLASSES[dim](fn, area, res, **kw)
     S = fn.absmax if fb is None else max(fn.absmax, abs(fb[0]), abs(fb[1]))
     return cache, S
+
+
+ARG = {1: [lambda: Arg1D()], 2: [lambda: Arg2D("x"), lambda: Arg2D("y")], 3: [lambda: Arg3D("x"), lambda: Arg3D("y"), lambda: Arg3D("z")]}
+SIN = {1: Sin1D, 2: Sin2D, 3: Sin3D}
+CONST = {1: Constant1D, 2: Constant2D, 3: Constant3D}
+
+
+def _handed_in(flv, fn, dim, area, res):
+    """Build the object handed to the cache for flavour `flv` from the analytic base function `fn` (an Fn).
+    Returns (object, label, analytic) - analytic: the object is the same mathematical function as fn (curvature known);
+    coarse: ratio (spacing of the object's own knots) / (outer node spacing), >= 1, enters kappa."""
+    kind = flv["kind"]
+    lo = [area[2 * a] for a in range(dim)]
+    hi = [area[2 * a + 1] for a in range(dim)]
+    if kind == "constant" and not fn.constant:
+        kind = "expr"
+    if kind == "constant":
+        return CONST[dim](fn.co[0]), "constant", True, 1.0
+    if kind == "expr":                               # raysect arithmetic expression of Arg / Sin / constants
+        args = [mk() for mk in ARG[dim]]
+        if fn.kind == "sin":
+            e = None
+            for a in range(dim):
+                term = SIN[dim](fn.k[a] * (args[a] - fn.c[a]) + fn.ph[a])
+                e = term if e is None else e * term
+            return fn.off + fn.A * e, "expr", True, 1.0
+        t = [(args[a] - fn.c[a]) * (2.0 / fn.w[a]) for a in range(dim)]
+        e = CONST[dim](0.0)
+        for m, cm in enumerate(fn.co):
+            if cm == 0.0:
+                continue
+            term = None
+            for a in range(dim):
+                if (m >> a) & 1:
+                    term = t[a] if term is None else term * t[a]
+            e = e + (cm if term is None else cm * term)
+        for a in range(dim):
+            if fn.q[a] != 0.0:
+                e = e + fn.q[a] * t[a] * t[a]
+        return e, "expr", True, 1.0
+    if kind == "clamp":                              # cherab wrapper, limits far outside the range of f: identity
+        cls = (CM.ClampOutput1D, CM.ClampOutput2D, CM.ClampOutput3D)[dim - 1]
+        return cls(fn, -4.0 * fn.absmax - 1.0, 4.0 * fn.absmax + 1.0), "cherab-clamp", True, 1.0
+    if kind == "swizzle":                            # cherab wrapper that permutes the arguments of a permuted callable
+        if dim == 1:
+            return CM.ClampInput1D(fn, lo[0] - 2e3 * fn.w[0], hi[0] + 2e3 * fn.w[0]), "cherab-clampinput", True, 1.0
+        if dim == 2:
+            return CM.Swizzle2D(lambda b, a: fn(a, b)), "cherab-swizzle", True, 1.0
+        return CM.Swizzle3D(lambda b, c, a: fn(a, b, c), (1, 2, 0)), "cherab-swizzle", False, 1.0
+    if kind == "cache":                              # another (coarser) cache over an area that contains the sampled hull
+        iarea, ires, coarse = [], [], 1.0
+        for a in range(dim):
+            m0, m1 = float(flv["margin"][2 * a]), float(flv["margin"][2 * a + 1])
+            iarea += [lo[a] - res[a] - m0 * fn.w[a], hi[a] + res[a] + m1 * fn.w[a]]
+            ires.append(res[a] * float(flv["coarse"]))
+            coarse = max(coarse, float(flv["coarse"]))
+        inner = CLASSES[dim](fn, tuple(iarea), ires[0] if dim == 1 else tuple(ires), no_boundary_error=bool(flv["nbe"]))
+        return inner, "inner-cache", False, coarse
+    # cubic interpolators over samples of f on a grid that contains the sampled hull (constant extrapolation beyond)
+    n = int(flv["n"])
+    axes = [np.linspace(lo[a] - 1.5 * res[a], hi[a] + 1.5 * res[a], n) for a in range(dim)]
+    data = np.empty([n] * dim)
+    for idx in np.ndindex(*data.shape):
+        data[idx] = fn.value([float(axes[a][idx[a]]) for a in range(dim)])
+    coarse = max(max((axes[a][1] - axes[a][0]) / min(res[a], (hi[a] - lo[a]) / n_cells(lo[a], hi[a], res[a])) for a in range(dim)), 1.0)
+    rng = [1e6 * fn.w[a] for a in range(dim)]
+    if kind == "interp-raysect":
+        cls = (Interpolator1DArray, Interpolator2DArray, Interpolator3DArray)[dim - 1]
+        return cls(*(axes + [data, "cubic", "nearest"] + rng)), "interp-raysect", False, coarse
+    cls = (CM.Interpolate1DCubic, CM.Interpolate2DCubic, CM.Interpolate3DCubic)[dim - 1]
+    return cls(*(axes + [data]), extrapolate=True, extrapolation_type="nearest", extrapolation_range=max(rng)), "interp-cherab", False, coarse
+
+
+def build_flavour(case, spec, dim, area, res, flv, ctx):
+    fn = Fn(spec, dim, area, res)
+    with ctx.cut("flavour/handed-in"):
+        H, lab, analytic, coarse = _handed_in(flv, fn, dim, area, res)
+    fb = _fb_of(case, fn, case["fb"])
+    with ctx.cut("flavour/constructor"):
+        O = CLASSES[dim](H, tuple(float(v) for v in area), float(res[0]) if dim == 1 else tuple(float(v) for v in res),
+                         no_boundary_error=bool(case["nbe"]), function_boundaries=fb)
+    S = fn.absmax if fb is None else max(fn.absmax, abs(fb[0]), abs(fb[1]))
+    return fn, H, O, S, lab, analytic, coarse
 
 
 def _num(v, form):
@@ -722,6 +839,70 @@ def run(case, ctx):
             ctx.check(_bits(v) == _bits(vA[i]), "forms/value",
                       lambda: "forms %r: %r, canonical float/tuple/keyword form: %r at p=%r (passed as %r)" % (forms, v, vA[i], p, q))
         ctx.label(*sorted(set(labels)))
+
+    # ---- any wrapped function: the oracle is the object that was handed in, evaluated directly
+    flv = case.get("flavour")
+    if flv:
+        def evH(H_, p):
+            try:
+                return float(H_(*p))
+            except ValueError:                       # an inner cache without pass-through, asked outside its own area
+                return None
+
+        fnH, H, O, SH, flab, analytic, coarse = build_flavour(case, spec, dim, area, res, flv, ctx)
+        ctx.label("wrapped:%s" % flab)
+        kap3 = 1.0
+        for a in range(dim):
+            X = max(abs(area[2 * a] - res[a]), abs(area[2 * a + 1] + res[a]), width[a] + 2 * res[a])
+            K = (fnH.k[a] if fnH.kind == "sin" else 2.0 / width[a]) * coarse ** (1.0 / 3.0)
+            kap3 *= (1.0 + K * X) ** 3
+        kapH = kappa if analytic else kap3
+        tolH = min(FP_BASE * kapH, FP_CAP) * 2.5 * SH
+        vO = []
+        for i, p in enumerate(pts):
+            v = ev(O, p, "flavour/evaluate")
+            vO.append(v)
+            want = evH(H, p)
+            info = "wrapped=%s p=%r class=%s" % (flab, p, kl[i])
+            if kl[i] == "out":
+                if nbe:
+                    ctx.check(_bits(v) == _bits(want), "flavour/passthrough",
+                              lambda: "outside the area the cache returns %r, the object that was handed in gives %r; %s" % (v, want, info))
+                else:
+                    ctx.check(v is None, "flavour/outside-raise", lambda: "no ValueError outside the area, got %r; %s" % (v, info))
+                continue
+            if kl[i] == "in":
+                ctx.check(v is not None, "flavour/inside-raised", lambda: "ValueError inside the caching area; " + info)
+            if v is None or want is None:
+                continue
+            if analytic:
+                bound = (curv_bound if (fnH.kind == "sin" or (fnH.kind == "quad" and curv_bound > 0.0)) else 0.0) + tolH
+                ctx.check(abs(v - want) <= bound, "flavour/approx",
+                          lambda: "|cache - handed-in| = %.6g > %.6g (h^2 curvature %.3g + fp %.3g); cache=%r handed-in=%r; %s"
+                          % (abs(v - want), bound, curv_bound, tolH, v, want, info))
+        # sampling nodes: corners of the visited cells
+        nds = []
+        for i, p in enumerate(pts):
+            if kl[i] == "out" or vO[i] is None:
+                continue
+            for up in (0, 1):
+                nd = tuple(grids[a][min(cells[i][a] + up, ncell[a])] for a in range(dim))
+                if klass(nd) == "in" and nd not in nds:
+                    nds.append(nd)
+        for nd in nds[:MAX_NODES]:
+            v = ev(O, nd, "flavour/evaluate")
+            want = evH(H, nd)
+            ctx.check(v is not None and want is not None and abs(v - want) <= tolH, "flavour/node",
+                      lambda: "cache(node)=%r, the object that was handed in gives %r at the sampling node %r (fp tol %.3g, kappa %.3g); wrapped=%s"
+                      % (v, want, nd, tolH, kapH, flab))
+        if nds:
+            ctx.label("wrapped-node:%s" % flab)
+        # history independence with this kind of wrapped object
+        _, _, O2, _, _, _, _ = build_flavour(case, spec, dim, area, res, flv, ctx)
+        for i in perm:
+            v = ev(O2, pts[i], "flavour/evaluate")
+            ctx.check(_bits(v) == _bits(vO[i]), "flavour/history",
+                      lambda: "wrapped=%s: %r in list order, %r in order %r at p=%r" % (flab, vO[i], v, perm, pts[i]))
 
     # ---- interference: a second cache B (other function / area / resolution) alive and used between A's evaluations; repeats
     sec = case.get("second")
